@@ -213,7 +213,7 @@ func TestVerif_C06_Writes(t *testing.T) {
 	verifsim.RunCheck(t, verifsim.Check[wrSc]{
 		Property: "C06", Part: "writes",
 		Rule: "rapid: C01-style networks (1-25 peers, faults, latencies) with per-recipient treatment of write RPCs (ok, error, hang to timeout), host address sets drawn from classes " +
-			"{public x2, private, loopback v4/v6, none}, address filter {none, no-loopback, public-only}; operations PutValue, Provide classic, Provide optimistic (estimator primed), completed SearchValue; " +
+			"{public x2, private, loopback v4/v6, none}, address filter {none, no-loopback, public-only}; operations PutValue, Provide classic, Provide optimistic (estimator primed) for SHA-256, identity and SHA-1 multihash keys, completed SearchValue; " +
 			"oracle over the simulation log with the lookup result R recomputed from the lookup events: local store first, PUT_VALUE with the same record to exactly R, one ADD_PROVIDER naming exactly self with the " +
 			"filtered non-empty addresses to every member of R (exactly R for classic; nobody twice), none at all when no address passes, corrective puts to exactly the closest peers that did not return the best value; " +
 			"non-trivial = |R|>=2 with a failing/hanging recipient, or a host address set the filter changes",
@@ -227,6 +227,8 @@ func TestVerif_C06_Writes(t *testing.T) {
 			s.Key = rapid.IntRange(0, 99).Draw(t, "key")
 			if sc.Op == "putvalue" || sc.Op == "search" {
 				s.KeyKind = 2
+			} else if verifsim.Chance(t, "otherHash", 20) {
+				s.KeyKind = rapid.SampledFrom([]int{4, 5}).Draw(t, "hashKind") // provide: identity / SHA-1 multihash
 			}
 			s.Self = rapid.IntRange(0, unknownBase-1).Draw(t, "self")
 			n := rapid.IntRange(1, 25).Draw(t, "nPeers")
